@@ -12,11 +12,11 @@
    m bytes (all but one at most when term = None: a short write without error) and reports term. *)
 From Coq Require Import String.   (* first, so that List.length etc. from Lib.Base take precedence *)
 From Verif Require Import Lib.Base Lib.Sx Lib.Err Lib.IO Model.ErrorsPkg Model.Faults.
-From Verif Require Import Proofs.ErrorsPkg Proofs.FaultsIO Proofs.Faults Proofs.FaultsFlv Proofs.FaultsWrite Proofs.FaultsBufw Proofs.FaultsBufwSim.
+From Verif Require Import Proofs.ErrorsPkg Proofs.FaultsIO Proofs.Faults Proofs.FaultsFlv Proofs.FaultsWrite Proofs.FaultsBufw Proofs.FaultsBufwPeer.
 From Verif Require Model.Flv Proofs.Flv.
 From Verif Require Gen.Gen_errors.
 From Verif Require Model.RtmpChunk Proofs.RtmpChunk Proofs.RtmpChunkRT Proofs.FaultsRtmpChunk.
-From Verif Require Model.FaultsRtmp Proofs.FaultsRtmpG.
+From Verif Require Model.FaultsRtmp Proofs.FaultsRtmpG Proofs.FaultsLens Proofs.FaultsTheirBytes.
 Open Scope N_scope.
 
 (* ================================ the errors package ================================
@@ -344,12 +344,50 @@ Theorem c08_rtmp_write_which hs ms i m term :
   (oe = None <-> free_calls hs ms m term <= i).
 Proof. exact (rtmp_write_session_which hs ms i m term). Qed.
 
+(* ... and what the peer then holds: exactly the first i transport writes of the fault-free run
+   and the accepted part of write number i (received_at, as in c08_flv_write); w0 is the transport at
+   the end of the fault-free session, rev (wt_peer w0) its list of writes *)
+Theorem c08_rtmp_write_peer hs ms i m term :
+  let '(n, oe, w) := rtmp_write_session hs ms (wtr_new (Some i) m term) in
+  let w0 := snd (rtmp_write_session hs ms (wtr_new None m term)) in
+  n = free_done i hs ms m term /\
+  (oe = None <-> wt_calls w0 <= i) /\
+  (oe <> None ->
+   wt_received w = received_at (wt_m w) (wt_term w) (rev (wt_peer w0)) i /\ i < wt_calls w0).
+Proof. exact (rtmp_write_session_peer hs ms i m term). Qed.
+
 (* non-vacuity: handshake + a 300-byte message: 3 + 1 transport writes; fault at call 2 (c2) and 3 *)
 Example c08_rtmp_write_which_example :
   let ms := [mk_rmsg 0 3 9 1000 300 0] in
   free_calls true ms 0 None = 4 /\ free_done 2 true ms 0 None = 2 /\ free_done 3 true ms 0 None = 3 /\
   free_done 4 true ms 0 None = 4.
 Proof. vm_compute. auto. Qed.
+
+(* The same over the rtmpchunk builder's WRITER: `their_wops` are the pieces WriteMessage copies into
+   the bufio.Writer, as slices of their wire (c0 header, payload part, c3 header, payload part, ...):
+   concatenated per message they are exactly the byte strings ws of `write_all`.  For every message
+   list and every fault (call index i, accepted bytes m, error or short write):
+   - the outcome obeys session_ok over THEIR bytes: the first n messages are completely on the peer's
+     side, of message n+1 a prefix, nothing else -- the peer sees a prefix of their wire; the error is
+     the transport's;
+   - n and error/no error are the functions of i of c08_rtmp_write_which;
+   - the executable model session (zero bytes of the sizes computed from the message list, the one the
+     correspondence run executes against the real Protocol) gives the same n, the same error and the
+     same number of received bytes: the buffered writer depends on its pieces only through their
+     lengths (Proofs/FaultsLens.v), and the sizes agree (their_wops_sizes). *)
+Theorem c08_rtmp_write ms i m term ws :
+  Forall Proofs.RtmpChunkRT.wf_msg ms ->
+  Model.RtmpChunk.write_all Model.RtmpChunk.DEFCHUNK ms = map Ok ws ->
+  let ops := Proofs.FaultsTheirBytes.their_wops Model.RtmpChunk.DEFCHUNK ms in
+  let wf := wtr_new (Some i) m term in
+  let '(n, oe, b) := rtmp_write_ops ops (bufw_new wf) 0 in
+  map (@concat N) ops = ws /\
+  session_ok [] ops 0 n oe (wt_err wf) (bw_under b) /\
+  n = free_done i false (map Proofs.FaultsRtmpG.rmsg_of ms) m term /\
+  (oe = None <-> free_calls false (map Proofs.FaultsRtmpG.rmsg_of ms) m term <= i) /\
+  (let '(n', oe', w') := rtmp_write_session false (map Proofs.FaultsRtmpG.rmsg_of ms) wf in
+   n' = n /\ oe' = oe /\ lenN (wt_received w') = lenN (wt_received (bw_under b))).
+Proof. exact (Proofs.FaultsTheirBytes.their_write_full ms i m term ws). Qed.
 
 (* and no spurious failure: on a transport that never fails every operation succeeds and the peer
    has the whole wire *)
@@ -399,5 +437,7 @@ Print Assumptions c08_rtmp_read.
 Print Assumptions c08_rtmp_plan_size.
 Print Assumptions c08_rtmp_write_partial.
 Print Assumptions c08_rtmp_write_which.
+Print Assumptions c08_rtmp_write_peer.
+Print Assumptions c08_rtmp_write.
 Print Assumptions c08_rtmp_write_no_fault.
 Print Assumptions c08_bufio_write_ops.
